@@ -23,6 +23,7 @@ from sa.pyfront import Program
 from sa.symex import Interp, flat_guards
 
 RULES = {
+    "R-C06-p": "small schemas the other operations rest on: set_if pops the key for a None / empty value and stores otherwise; filtered renumbers through a scatter of arange(new_length) and builds shape (new_length,) + shape[1:]; sliced starts its shape and coordinates with the row extent / the value; the default mapping of reindexed ranks the listed VALUES (first coordinates)",
     "R-C06-n": "forced views: get(key, force=True) of a common-valued key returns common_rowids(<the key's own column>), and items(force=True) appends ((common,), common_rowids()) for a 1-D index or ((common, c), common_rowids(c)) for EVERY column c of a 2-D one, after the explicit entries",
     "R-C06-m": "an optional parameter that holds a category value or a column number (new_common, common, colindex) is tested with `is None`, never by truthiness: 0 is a legal - and the most usual - value",
     "R-C06-l": "collapsed: the dtype of the output array is chosen from a collection that contains every value the method can write into it (the fill value and every precedence code), not from a filtered subset",
@@ -240,7 +241,8 @@ def rule_n(prog, rep):
     okg = bool(calls) and all(len(e["args"]) == 1 and e["args"][0].op == "starred" and e["args"][0].args[0] == rest for e in calls)
     rep.check(okg, "R-C06-n", fi.fq, "get(force): common rows of the key's own column: common_rowids(*key[1:])", "", "common_rowids is called with %s" % [tm.show(a)[:30] for e in calls for a in e["args"]],
               witness={"inputs": "2-D index: idx.get((common, 1), force=True) returns the common rows of column 0 / of no column"})
-    guarded = bool(calls) and all(any(tm.contains(c, lambda x: x.op == "cmp" and x.args[0] == "==" and common in x.args[1:]) and pol for c, pol in e.guards) for e in calls)
+    k0 = tm.T("sub", key, tm.const(0))
+    guarded = bool(calls) and all(any(tm.contains(c, lambda x: x.op == "cmp" and x.args[0] == "==" and common in x.args[1:] and k0 in x.args[1:]) and pol for c, pol in e.guards) for e in calls)
     rep.check(guarded, "R-C06-n", fi.fq, "get(force): the common rows are returned only for a key whose value is the common value", "", "the force path is not guarded by key[0] == self.common")
     # ---- items
     fi = prog.func("iindexes", "iindex.items")
@@ -271,6 +273,80 @@ def rule_n(prog, rep):
         why = "columns enumerated by %s; rows from common_rowids(%s) under key column %s" % (it is not None and tm.show(it)[:30], v.op == "call" and [tm.show(a)[:20] for a in v.args[1]], tm.show(col)[:20])
     rep.check(ok2, "R-C06-n", fi.fq, "items(force), 2-D: ((common, c), common_rowids(c)) for every column c in range(shape[1])", "", why,
               witness={"inputs": "2-D index: to_dict(force=True) misses the common rows of a column / reports another column's rows"})
+
+
+def rule_p(prog, rep):
+    self_t = tm.param("self")
+    # ---- set_if
+    fi = prog.func("iindexes", "iindex.set_if")
+    I = Interp(prog, hints.param_types_for("iindexes"), hints.FIELD_TYPES, inline=False)
+    I.run(fi)
+    key, value = tm.param(fi.params()[1]), tm.param(fi.params()[2])
+    pops = [e for e in I.events if e.kind == "call" and e["method"] == "pop" and e["recv"] == self_t and e["args"] and e["args"][0] == key]
+    dels = [e for e in I.events if e.kind == "del_sub" and e["base"] == self_t]
+    stores = [e for e in I.events if e.kind == "store_sub" and e["base"] == self_t and e["index"] == key]
+    def empties(g, pol_store):
+        """guards say: value is None or len(value) == 0 (pol_store False) / the negation (True)"""
+        fl = flat_guards(g)
+        return any((c.op == "cmp" and c.args[0] in ("is", "is not") and value in c.args[1:] and tm.NONE in c.args[1:]) or
+                   (c.op == "cmp" and c.args[1].op == "call" and tm.callee_name(c.args[1]) == "builtins.len" and c.args[1].args[1][0] == value) or
+                   (c.op == "call" and tm.callee_name(c) == "builtins.len" and c.args[1][0] == value) or c.op == "bool" for c, pol in fl)
+    okp = bool(pops or dels) and all(empties(e.guards, False) for e in pops + dels)
+    rep.check(okp, "R-C06-p", fi.fq, "set_if: a None / empty value removes the key", "self.pop(key, None) under `value is None or len(value) == 0`",
+              "no removal of the key for an empty value: an entry whose rows were all taken away (intersection_update, difference_update) keeps its OLD rows",
+              witness={"inputs": "idx.intersection_update({(1,): [rows disjoint from idx[(1,)]]}): entry (1,) keeps all its rows instead of disappearing"})
+    rep.check(len(stores) >= 1 and all(empties(e.guards, True) for e in stores), "R-C06-p", fi.fq, "set_if: a non-empty value is stored under the key", "", "no guarded store self[key] = value")
+    # ---- filtered
+    fi = prog.func("iindexes", "iindex.filtered")
+    I = Interp(prog, hints.param_types_for("iindexes"), hints.FIELD_TYPES, inline=False,
+               oracle=lambda t: None)
+    fr = I.run(fi)
+    mask, new_length = tm.param(fi.params()[1]), tm.param(fi.params()[2])
+    ctor = [e for e in I.events if e.kind == "call" and e["result"] is not None and any(a.op == "alloc" and a.args[0] == "obj:iindex" for a in tm.alts(e["result"])) and len(e["args"]) == 3]
+    oks = False
+    for e in ctor:
+        sh = e["args"][2]
+        oks = sh.op == "binop" and sh.args[0] == "+" and sh.args[1].op == "tuple" and sh.args[1].args == (new_length,) \
+            and sh.args[2] == tm.T("sub", tm.T("attr", self_t, "shape"), tm.T("slice", tm.const(1), tm.NONE, tm.NONE)) and e["args"][1] == tm.T("attr", self_t, "common")
+    rep.check(oks, "R-C06-p", fi.fq, "filtered: result has shape (new_length,) + self.shape[1:] and the same common value", "", "constructor arguments differ",
+              witness={"inputs": "filtering a 2-D index: the column extent is lost / the common value changes"})
+    scat = [e for e in I.events if e.kind == "store_sub" and e["index"] == mask and e["value"].op == "call" and tm.callee_name(e["value"]) == "numpy.arange" and e["value"].args[1] and e["value"].args[1][0] == new_length]
+    rep.check(len(scat) == 1, "R-C06-p", fi.fq, "filtered: new row numbers = arange(new_length) scattered to the kept rows (new_rowids[mask] = arange(new_length))", "", "renumbering map not found")
+    # ---- sliced: first elements
+    fi = prog.func("iindexes", "iindex.sliced")
+    I = Interp(prog, hints.param_types_for("iindexes"), hints.FIELD_TYPES, inline=False)
+    I.run(fi)
+    firsts = []
+    for a, h in I.heap.items():
+        if a.op == "alloc" and a.args[0] == "list" and h.get("literal") and len(h["literal"]) == 1:
+            firsts.append(h["literal"][0])
+    want_shape = tm.T("sub", tm.T("attr", self_t, "shape"), tm.const(0))
+    ok_shape = any(x == want_shape for x in firsts)
+    ok_coord = any(x.op == "sub" and x.args[0].op == "dkey" and tm.is_const(x.args[1], 0) for x in firsts)
+    rep.check(ok_shape, "R-C06-p", fi.fq, "sliced: the new shape starts with the row extent self.shape[0]", "", "new_shape starts with %s" % [tm.show(x)[:30] for x in firsts],
+              witness={"inputs": "sliced(...) of an (N, C) index reports C (or another extent) as its number of rows"})
+    rep.check(ok_coord, "R-C06-p", fi.fq, "sliced: every new key starts with the entry's value coords[0]", "", "new_coords starts with %s" % [tm.show(x)[:30] for x in firsts])
+    # ---- reindexed: default mapping
+    fi = prog.func("iindexes", "iindex.reindexed")
+    I = Interp(prog, hints.param_types_for("iindexes"), hints.FIELD_TYPES, inline=False)
+    I.run(fi)
+    dm = None
+    for e in I.events:
+        for v in e.d.values():
+            if isinstance(v, tm.T):
+                for x in tm.walk(v):
+                    if x.op == "comp" and x.args[0] == "dict" and tm.contains(x, lambda y: y.op == "call" and tm.callee_name(y) == "builtins.sorted"):
+                        dm = x
+    if dm is None:
+        rep.undecided("R-C06-p", fi.fq, "reindexed: default mapping", "dict comprehension over enumerate(sorted(...)) not found")
+    else:
+        srt = [y for y in tm.walk(dm) if y.op == "call" and tm.callee_name(y) == "builtins.sorted"][0]
+        inner = srt.args[1][0] if srt.args[1] else None
+        okv = inner is not None and inner.op == "comp" and inner.args[1].op == "sub" and tm.is_const(inner.args[1].args[1], 0) and inner.args[1].args[0].op == "iter" and inner.args[1].args[0].args[0] == self_t
+        k, v = dm.args[1].args if dm.args[1].op == "tuple" else (None, None)
+        okkv = k is not None and k.op == "iter" and v is not None and v.op == "enumidx"
+        rep.check(bool(okv and okkv), "R-C06-p", fi.fq, "reindexed: the default mapping sends the k-th smallest listed VALUE (first coordinate) to k", "{v: i for i, v in enumerate(sorted(k[0] for k in self))}",
+                  "default mapping is %s" % tm.show(dm)[:90], witness={"inputs": "reindexed() of a 2-D index ranks column numbers instead of values"})
 
 
 CATEGORY_PARAMS = {"iindex.shift_common": ("new_common",), "column_stack": ("new_common",), "iindex.from_array": ("common",), "iindex.common_rowids": ("colindex",)}
@@ -742,6 +818,7 @@ def main(tier):
     rule_l(prog, rep)
     rule_m(prog, rep)
     rule_n(prog, rep)
+    rule_p(prog, rep)
     import c07
     sub7 = core.Report("C07", level="other", rules=c07.RULES, tier=tier)
     ii7 = prog.cls("iindexes", "iindex")
